@@ -918,12 +918,29 @@ theorem xg_spec (e : Engine) (hv : e.Valid) (src dst : KPeer) (a b : Int)
 
 /-! ### 7. both directions: `verdict` -/
 
-theorem verdict_eq (e : Engine) (sp dp : KPeer) (proto port : String) :
+theorem walk_eq (e : Engine) (sp dp : KPeer) (proto port : String) :
+    walk e sp dp proto port =
+      (xg e sp dp false proto port >>= fun eg =>
+        if !eg then .ok false else xg e sp dp true proto port) := by
+  unfold walk
+  cases xg e sp dp false proto port <;> rfl
+
+/-- query strings that parse pass the validation of the query port -/
+theorem Parses.goodQuery {proto port : String} {pr : Proto} {n : Int}
+    (h : Parses proto port pr n) : badQuery proto port = false :=
+  badQuery_of_toInt h.hport
+
+/-- on query strings that parse the validation of the port is void: the verdict is the walk -/
+theorem verdict_eq_walk (e : Engine) (sp dp : KPeer) {proto port : String} {pr : Proto} {n : Int}
+    (hq : Parses proto port pr n) : verdict e sp dp proto port = walk e sp dp proto port :=
+  verdict_of_toInt e sp dp hq.hport
+
+theorem verdict_eq (e : Engine) (sp dp : KPeer) {proto port : String} {pr : Proto} {n : Int}
+    (hq : Parses proto port pr n) :
     verdict e sp dp proto port =
       (xg e sp dp false proto port >>= fun eg =>
         if !eg then .ok false else xg e sp dp true proto port) := by
-  unfold verdict
-  cases xg e sp dp false proto port <;> rfl
+  rw [verdict_eq_walk e sp dp hq, walk_eq]
 
 /-- **Theorem (`verdict_spec`).** For a valid engine and concrete peers the uncached verdict of
 `CheckIfAllowed` on resolved peers is `Spec.allowed` at the queried point; its only failure is
@@ -942,7 +959,7 @@ theorem verdict_spec (e : Engine) (hv : e.Valid) (sp dp : KPeer) (a b : Int)
   simp only [selfEnd_false, otherEnd_false, dirOf_false] at eg1
   simp only [selfEnd_true, otherEnd_true, dirOf_true] at in1
   have hr : Spec.inPortRange n = true := (Spec.inPortRange_iff n).mpr hn
-  rw [verdict_eq]
+  rw [verdict_eq e sp dp hq]
   unfold Spec.allowed
   rw [hr, Bool.true_and]
   cases heg : xg e sp dp false proto port with
@@ -1119,7 +1136,7 @@ theorem verdict_total (e : Engine) (hv : e.Valid) (sp dp : KPeer) (a b : Int)
     | error err => rw [heg] at h; cases h
     | ok res =>
       obtain ⟨eg, hxe⟩ := xg_total e hv sp dp a b hs hd hdok false hq hn res heg
-      rw [verdict_eq, hxe]
+      rw [verdict_eq e sp dp hq, hxe]
       cases eg
       · exact ⟨false, rfl⟩
       · simp only [bind, Except.bind, Bool.not_true, Bool.false_eq_true, if_false]
@@ -1314,7 +1331,8 @@ theorem xg_eq_parsed (e : Engine) (src dst : KPeer) (i : Bool) {proto port : Str
 theorem verdict_eq_parsed (e : Engine) (sp dp : KPeer) {proto port : String}
     {pr : Proto} {n : Int} (hq : Parses proto port pr n) :
     verdict e sp dp proto port = verdictP e sp dp (some pr) n := by
-  simp only [verdict, verdictP, xg_eq_parsed e sp dp _ hq]
+  rw [verdict_eq_walk e sp dp hq]
+  simp only [walk, verdictP, xg_eq_parsed e sp dp _ hq]
   rfl
 
 end EState
